@@ -111,3 +111,36 @@ Example C06_hypotheses_inhabited :
   = Some (hex "8001fb82ff7f81040361c3a501016002012cff0883011170800100020640030205e0").
 Proof. repeat split; vm_compute; reflexivity. Qed.
 Print Assumptions C06_hypotheses_inhabited.
+
+(** ------------------------------------------------------------------
+    Tie to the SOURCE TEXT (coq/gen/PyOer.v regenerated from oer.py on every run):
+    the regenerated oer.encode_tag IS the model's tag encoder for every tag number
+    and every class. *)
+From Asn1V Require Py.PyOerTie.
+
+Theorem C06_src_encode_tag : ltac:(let T := type of Asn1V.Py.PyOerTie.py_oer_encode_tag_eq in exact T).
+Proof. exact Asn1V.Py.PyOerTie.py_oer_encode_tag_eq. Qed.
+Print Assumptions C06_src_encode_tag.
+
+(** ------------------------------------------------------------------
+    Constraints applied at reference sites, in series (Oer/OerSerial.v): the OER-visible effective constraint of a
+    chain "parent type, then constraint, then constraint ..." - MIN/MAX denote the bounds of the parent's root, an
+    extensible constraint is not OER-visible and leaves the effective constraint of the chain unchanged, non-extensible
+    ones intersect.  [elab_env] turns such surface environments into ordinary ones, so [C06_oer_refines_x696] applies. *)
+From Asn1V Require Oer.OerSerial.
+
+Theorem C06_serial_extensible_ignored_int : ltac:(let T := type of Asn1V.Oer.OerSerial.eff_int_extensible_ignored in exact T).
+Proof. exact Asn1V.Oer.OerSerial.eff_int_extensible_ignored. Qed.
+Print Assumptions C06_serial_extensible_ignored_int.
+
+Theorem C06_serial_extensible_ignored_size : ltac:(let T := type of Asn1V.Oer.OerSerial.eff_size_extensible_ignored in exact T).
+Proof. exact Asn1V.Oer.OerSerial.eff_size_extensible_ignored. Qed.
+Print Assumptions C06_serial_extensible_ignored_size.
+
+Theorem C06_serial_visible_intersects : ltac:(let T := type of Asn1V.Oer.OerSerial.istep_visible_intersects in exact T).
+Proof. exact Asn1V.Oer.OerSerial.istep_visible_intersects. Qed.
+Print Assumptions C06_serial_visible_intersects.
+
+Theorem C06_serial_root_in_visible : ltac:(let T := type of Asn1V.Oer.OerSerial.ichain_root_in_vis in exact T).
+Proof. exact Asn1V.Oer.OerSerial.ichain_root_in_vis. Qed.
+Print Assumptions C06_serial_root_in_visible.
